@@ -116,6 +116,19 @@ pub fn scripts() -> Vec<Script> {
             into_inner: true,
             arm_before_open: true,
         },
+        // a string pool longer than the container's 8 KiB read buffer: a failed refill while the pool is read in
+        Script {
+            name: "open-large-pool-under-faults-then-insert",
+            setup: Some(vec![
+                create("T"),
+                create("U"),
+                ins("T", (0..2600).map(|i| vec![V::Int(i + 1), V::Str(format!("t0x{} s", i + 1))]).collect()),
+                ins("U", vec![vec![V::Int(1), V::s("t0x1 s")]]),
+            ]),
+            ops: vec![ins("U", vec![vec![V::Int(2), V::s("t0x9001 new")]])],
+            into_inner: false,
+            arm_before_open: true,
+        },
         Script { name: "package-create", setup: None, ops: vec![create("T"), ins("T", rows3)], into_inner: false, arm_before_open: false },
     ]
 }
